@@ -50,6 +50,16 @@ def gen_sensible(rng, tr):
     shape = rng.choice(["mid", "mid", "mid", "idle", "setup", "close", "timeouts", "serve"])
     if tr == "doip" and rng.random() < 0.35:
         shape = "setup"
+    if tr in ("doip", "hsfz") and rng.random() < 0.12:
+        # two acknowledgements ahead of a busy reply: the retry on the same connection finds the second one only when the
+        # read of the first attempt gave back what it had skipped
+        mr = max(mr, 1)
+        fr = LS.data_frames(tr, REQ, [BUSY])
+        ack, busy = fr[0], fr[1]
+        fin = LS.data_frames(tr, REQ, [LW.final(4)])[1]
+        ev = [R(tmo), T(rng.choice(SMALL)), D(ack + ack), T(rng.choice(SMALL)), D(busy), T(rng.choice([277, 451, 613])), D(fin),
+              T(rng.choice(ADV))]
+        return dict(tr=tr, mr=mr, ev=ev, stream="sensible:dupack")
 
     def healthy(i):
         pend = rng.choice([0, 0, 0, 1, 2])
@@ -116,7 +126,7 @@ def gen_sensible(rng, tr):
 def gen_adversarial(rng, tr):
     mr = rng.choice([0, 1, 2, 3])
     ev = []
-    frames = LS.data_frames(tr, REQ, [LW.PENDING, LW.final(rng.randrange(8)), BUSY, NEG])
+    frames = LS.data_frames(tr, REQ, [LW.PENDING, LW.final(rng.randrange(8)), BUSY, NEG, LW.PENDING, LW.final(1), b""])
     for _ in range(rng.randrange(3, 14)):
         x = rng.random()
         if x < 0.22:
@@ -227,9 +237,16 @@ def calls_of(case, obs: str):
     return list(zip(cl, toks))
 
 
-def spec_check(case, obs: str):
-    """the property's clauses on the implementation's observations of one execution (independent of the model's verdict)"""
+def spec_check(case, obs: str, model_obs: str | None = None):
+    """the property's clauses on the implementation's observations of one execution; `model_obs`: what the Lean model - for
+    which recovery is proved (`sys_recovers`) - gives on the same event list"""
     v = []
+    if model_obs is not None and case["mr"] >= 1 and not obs.startswith("harness-exc"):
+        for (ev, ti), (_, tm) in zip(calls_of(case, obs), calls_of(case, model_obs)):
+            if tm.startswith("req:reply:") and ti.startswith(("req:missing", "req:rc-", "req:escaped", "req:blocked")):
+                v.append(("no-recovery", f"max_retry={case['mr']}: the peer answers again and the proved model returns "
+                                         f"{tm.split(':')[2]} for this call; the implementation gives {':'.join(ti.split(':')[1:3])}"))
+                break
     if obs.startswith("harness-exc"):
         return [("not-drivable", obs)]
     legit = {LW.final(i).hex() for i in range(8)} | {BUSY.hex(), NEG.hex()}
